@@ -2202,7 +2202,7 @@ func vLemmaWithUnion(owner *Collection, index []uint64, a, b string) {
 
 //@ lemma props=C08,C18,C07
 func vLemmaReadChunk(c *Collection, chunk commit.Chunk, cbErr error) {
-	vAssume(c != nil && c.slock != nil && vNothingHeld() && len(c.fill) <= 1<<25 && len(c.commits) < 1<<20)
+	vAssume(c != nil && c.slock != nil && vNothingHeld() && len(c.fill) <= 1<<25 && len(c.commits) < 1<<20 && chunk < 1<<17)
 	vCol = c
 	calls := 0
 	err := c.readChunk(chunk, func(id uint64, ch commit.Chunk, fill bitmap.Bitmap) error {
